@@ -93,6 +93,45 @@ def run(check, prog):
 
 
 # ----------------------------------------------------------------------
+def _parinfo_entry(it, fd, parinfo):
+    """The per-parameter entry of the table handed to mpfit, the parameter it is
+    built for, and whether the table holds exactly one entry per parameter in
+    order -- for the two ways of building it: a loop appending to a list, or a
+    list comprehension over the parameters."""
+    P = sym(fd.args.args[1].arg)
+    if parinfo is None:
+        return None
+    if parinfo[0] == 'comp' and parinfo[1] == 'list' and len(parinfo[3]) == 1 and \
+            parinfo[3][0][1] == P and not parinfo[3][0][2]:
+        return parinfo[2], parinfo[3][0][0], True
+    if parinfo[0] != 'loop':
+        return None
+    lp = dname = tname = None
+    for l in it.loops.values():
+        if l['iter'] != P:
+            continue
+        for n_, (i0, st_) in l['vars'].items():
+            if st_ is None:
+                continue
+            # the per-parameter entry: the dict holding 'limits' / 'value'
+            if any(x[0] == 'dict' and any(k in (('const', 'limits'), ('const', 'value'))
+                                          for k, _ in x[1])
+                   for x in subterms(st_)) and not (st_[0] == 'mut'):
+                lp, dname = l, n_
+        for n_, (i0, st_) in l['vars'].items():
+            if st_ is not None and st_[0] == 'mut' and st_[2] == 'append':
+                tname = n_
+    if lp is None:
+        return None
+    d = lp['vars'][dname][1]
+    pars = [x for x in subterms(d) if x[0] == 'elem' and x[1] == P]
+    if not pars:
+        return None
+    st = lp['vars'].get(tname, (None, None))[1]
+    return d, pars[0], (st is not None and st[0] == 'mut' and st[2] == 'append'
+                        and st[3] == (d,))
+
+
 def bounds(check, prog):
     # ---- nmpfit: limits table
     q = N + '.minimize'
@@ -108,29 +147,13 @@ def bounds(check, prog):
                   'no single mpfit call', loc)
     else:
         parinfo = dict(mp[0]['kwargs']).get('parinfo')
-        lp = None
-        dname = tname = None
-        for l in it.loops.values():
-            if l['iter'] != sym(fd.args.args[1].arg):
-                continue
-            for n_, (i0, st_) in l['vars'].items():
-                if st_ is None:
-                    continue
-                # the per-parameter entry: the dict holding 'limits'
-                if any(x[0] == 'dict' and any(k == ('const', 'limits') for k, _ in x[1])
-                       for x in subterms(st_)) and not (st_[0] == 'mut'):
-                    lp, dname = l, n_
-            for n_, (i0, st_) in l['vars'].items():
-                if st_ is not None and st_[0] == 'mut' and st_[2] == 'append':
-                    tname = n_
-        okp = parinfo is not None and parinfo[0] == 'loop' and lp is not None
+        entry = _parinfo_entry(it, fd, parinfo)
+        okp = entry is not None
         check.require(okp, 'L1-bounds-reach-optimiser', 'NmpfitStrategy parinfo',
                       'mpfit receives the parameter table built from the priors', loc,
                       fail_detail='parinfo = %s' % (show(parinfo)[:120] if parinfo else None))
         if okp:
-            d = lp['vars'][dname][1]
-            par = [x for x in subterms(d) if x[0] == 'elem' and
-                   x[1] == sym(fd.args.args[1].arg)][0]
+            d, par, per_parameter = entry
             for side, idx, attr, cmpop, inf in (
                     ('lower', 0, 'lower_bound', '>', intern(('un', '-', ('extref', 'numpy.inf')))),
                     ('upper', 1, 'upper_bound', '<', intern(('extref', 'numpy.inf')))):
@@ -164,10 +187,8 @@ def bounds(check, prog):
                               'whenever the bound is finite' % (idx, attr, idx), loc,
                               fail_detail='the %s bound of the prior does not reach the '
                               'optimiser\'s limits table' % side)
-            # the table is appended per parameter
-            st = lp['vars'].get(tname, (None, None))[1]
-            check.require(st is not None and st[0] == 'mut' and st[2] == 'append' and
-                          st[3] == (d,),
+            # the table holds one entry per parameter
+            check.require(per_parameter,
                           'L1-bounds-reach-optimiser', 'NmpfitStrategy table',
                           'one entry per parameter, in order', loc)
     q = N + '.calc_residuals'
@@ -230,18 +251,12 @@ def scaling(check, prog):
     it = Interp(prog, max_depth=1, opaque=[N + '.unscale_pars_from_minimizer'],
                 inline_new=False)
     res = it.analyze(q)
-    lp = []
-    for l in it.loops.values():
-        for n_, (i0, st_) in l['vars'].items():
-            if st_ is not None and st_[0] != 'mut' and any(
-                    x[0] == 'dict' and any(k == ('const', 'value') for k, _ in x[1])
-                    for x in subterms(st_)):
-                lp.append((l, n_))
-    ok = bool(lp)
+    mp = [c for c in it.calls if c['name'].endswith('nmpfit.mpfit')]
+    entry = _parinfo_entry(it, fd, dict(mp[0]['kwargs']).get('parinfo')) \
+        if len(mp) == 1 else None
+    ok = entry is not None
     if ok:
-        d = lp[0][0]['vars'][lp[0][1]][1]
-        par = [x for x in subterms(d) if x[0] == 'elem' and
-               x[1] == sym(fd.args.args[1].arg)][0]
+        d, par, _ = entry
         want = intern(('call', ('attr', par, 'scale'), (('attr', par, 'guess'),), ()))
         ok = any(x[0] == 'dict' and any(k == ('const', 'value') and v == want
                                         for k, v in x[1]) for x in subterms(d))
